@@ -97,6 +97,7 @@ fn op(with_exact: bool) -> BoxedStrategy<Op> {
             5 => (0u8..3).prop_map(Op::ReadSet),
             5 => (0u8..3, prop_oneof![12 => 1u8..8, 1 => 250u8..=255]).prop_map(|(s, n)| Op::ReadExact(s, n)),
             2 => gen::policy_any().prop_map(Op::SetPolicy),
+            1 => any::<u16>().prop_map(Op::Seek),
         ]
         .boxed()
     } else {
@@ -105,6 +106,7 @@ fn op(with_exact: bool) -> BoxedStrategy<Op> {
             1 => Just(Op::Owned),
             5 => (0u8..3).prop_map(Op::ReadSet),
             2 => gen::policy_any().prop_map(Op::SetPolicy),
+            1 => any::<u16>().prop_map(Op::Seek),
         ]
         .boxed()
     }
@@ -180,7 +182,15 @@ impl Prop for Growth {
                 .prop_flat_map(move |((input, cap), policy, script, with_exact)| {
                     (Just((input, cap, policy, script)), vec(op(with_exact), 1..24))
                 })
-                .prop_map(move |((input, cap, policy, script), ops)| Case { format: f, input, cap, policy, script, ops })
+                .prop_map(move |((input, cap, policy, script), mut ops)| {
+                    // 1 history in 8 starts with a seek on the fresh reader (before anything was read)
+                    if ops.len() >= 2 {
+                        if let Op::Seek(t) = ops[ops.len() - 1].clone() {
+                            ops.insert(0, Op::Seek(t));
+                        }
+                    }
+                    Case { format: f, input, cap, policy, script, ops }
+                })
         };
         boxed(prop_oneof![per(Format::Fasta), per(Format::Fastq)])
     }
@@ -517,7 +527,154 @@ impl Prop for LongStreams {
     }
 }
 
-pub const RULE: &str = "sub-check reader-vs-recording-policy: (format, document with record extents aimed at the capacity (+-3) or soup, 1 in 7: documents with records of 100..3000 bytes and tiny records in between, capacity up to 4096, any policy kind incl. refusing and Add(k), 1 in 7: policies with steps of thousands of bytes (Add(1000..20000), DoubleUntil / DoubleUntilLimited / RefuseAbove in the thousands), chunk script, history of next / records() / read_record_set / [read_record_set_exact] / set_policy) -> (1) every grow_to argument equals the capacity adopted last (initial capacity first) and no source read asks for more bytes than the adopted size; (2) histories without exact reads: every request is justified by the extent of the record being parsed (FASTA: extent >= capacity; FASTQ: > for four terminated lines, >= for a group running to end of input); (3) a call returns BufferLimit iff the policy refused during that call; without exact reads the strict cursor model is followed THROUGH refusals (a refused call leaves the cursor where it is, so a policy installed afterwards lets the stream continue undisturbed), with exact reads up to the first refusal; (4) a replaced policy is never asked again. Sub-check long-streams: 200..3000 small records, or 8..700 records of 200..3000 bases with tiny records mixed in and (FASTA) leading blank lines, capacity = largest extent + 1 + slack (so up to several thousand bytes): the outcome equals the model and the policy is never asked. Sub-check policy-arithmetic: StdPolicy / DoubleUntil / DoubleUntilLimited against the documented formulas for sizes around the thresholds and up to 2^40. Non-trivial = >= 1 growth request or > 20 source reads without growth (reader), every case (others). Distinct = hash(case).";
+// ------------------------------------------------------------------------------------------------
+// readers opened with from_path(): default capacity, growth only through the policy installed afterwards
+
+#[derive(Clone, Debug, Serialize, Deserialize, Hash)]
+pub struct PathCase {
+    pub format: Format,
+    pub input: B,
+    pub sets: bool,
+}
+
+pub struct FromPath;
+
+impl Prop for FromPath {
+    type Case = PathCase;
+    fn input_bytes<'a>(&self, c: &'a mut Self::Case) -> Option<&'a mut Vec<u8>> {
+        Some(&mut c.input.0)
+    }
+    fn strategy(&self, _tier: Tier) -> BoxedStrategy<PathCase> {
+        let per = |f: Format| {
+            let input = match f {
+                Format::Fasta => prop_oneof![3 => gen::fasta_doc_with(4, 3), 2 => gen::long_read_doc(f), 3 => gen::big_input(f)].boxed(),
+                Format::Fastq => prop_oneof![3 => gen::fastq_valid_doc(4), 2 => gen::long_read_doc(f), 3 => gen::big_input(f)].boxed(),
+            };
+            // files of several hundred kB: the document repeated (only if it ends with a line terminator)
+            (input, 1usize..6, any::<bool>()).prop_map(move |(input, rep, sets)| {
+                let input = if input.len() > 20_000 && input.last() == Some(&b'\n') { B(input.0.repeat(rep)) } else { input };
+                PathCase { format: f, input, sets }
+            })
+        };
+        boxed(prop_oneof![per(Format::Fasta), per(Format::Fastq)])
+    }
+    fn check(&self, c: &PathCase, ctx: &mut Ctx) -> CheckResult {
+        use crate::driver::{fa_err, fa_norm, fq_err, fq_norm, Out};
+        use crate::policy::{RecPolicy, Shared};
+        use seq_io::{fasta, fastq};
+        let f = fmt_name(c.format);
+        let m = Model::build(c.format, &c.input);
+        if m.term == Terminal::Unspecified {
+            ctx.class("skipped: out-of-domain FASTQ group");
+            return Ok(());
+        }
+        let path = std::env::temp_dir().join(format!("seqio_verif_c09_{}_{:?}", std::process::id(), std::thread::current().id()).replace(|ch: char| !ch.is_ascii_alphanumeric() && ch != '_', "_"));
+        if let Err(e) = std::fs::write(&path, &c.input.0) {
+            fail!("harness/tempfile", "cannot write {}: {}", path.display(), e);
+        }
+        let shared = std::rc::Rc::new(Shared::default());
+        shared.input_len.set(c.input.len().max(1));
+        let (pol, log) = RecPolicy::new(PolKind::Std, shared.clone());
+        let max_e = m.recs.iter().map(|r| r.extent).max().unwrap_or(0);
+        ctx.nontrivial(c, c);
+        if c.input.len() > (1 << 17) {
+            ctx.class("file larger than two default buffers");
+        }
+        if c.input.len() < (1 << 16) {
+            ctx.class("file smaller than the default buffer");
+        }
+        let mut outs: Vec<Out> = Vec::new();
+        let mut max_set_cap = 0usize;
+        macro_rules! go {
+            ($m:ident, $norm:ident, $err:ident) => {{
+                let rdr = match $m::Reader::from_path(&path) {
+                    Ok(r) => r,
+                    Err(e) => fail!(format!("{}/from_path/open-failed", f), "from_path failed: {}", e),
+                };
+                let mut rdr = rdr.set_policy(pol);
+                if c.sets {
+                    let mut set = $m::RecordSet::default();
+                    loop {
+                        match rdr.read_record_set(&mut set) {
+                            None => break,
+                            Some(Err(e)) => {
+                                outs.push(Out::Err($err(&e)));
+                                break;
+                            }
+                            Some(Ok(())) => {
+                                max_set_cap = max_set_cap.max(set.buf_capacity());
+                                for r in &set {
+                                    shared.delivered.set(shared.delivered.get() + 1);
+                                    outs.push(Out::Rec($norm(&r)));
+                                }
+                            }
+                        }
+                    }
+                } else {
+                    loop {
+                        match rdr.next() {
+                            None => break,
+                            Some(Err(e)) => {
+                                outs.push(Out::Err($err(&e)));
+                                break;
+                            }
+                            Some(Ok(r)) => {
+                                shared.delivered.set(shared.delivered.get() + 1);
+                                outs.push(Out::Rec($norm(&r)));
+                            }
+                        }
+                    }
+                }
+            }};
+        }
+        match c.format {
+            Format::Fasta => go!(fasta, fa_norm, fa_err),
+            Format::Fastq => go!(fastq, fq_norm, fq_err),
+        }
+        let _ = std::fs::remove_file(&path);
+        outs.push(Out::End);
+        outs.push(Out::End);
+        outs.push(Out::End);
+        crate::light::compare(&m, &outs, false)?;
+        let events = log.borrow().clone();
+        if max_e + 1 < (1 << 16) {
+            ensure!(
+                events.is_empty(),
+                format!("{}/from_path/growth-although-every-record-fits", f),
+                "every record of the file fits the documented default buffer of 64 KiB (largest extent {}), but the policy was asked to grow: {:?}",
+                max_e,
+                events.iter().take(3).collect::<Vec<_>>()
+            );
+        } else {
+            ctx.class("a record larger than the default buffer");
+            if let Some(e) = events.first() {
+                ensure!(e.current == (1 << 16), format!("{}/from_path/initial-capacity", f), "the first growth request reports a capacity of {} instead of the default 65536", e.current);
+            }
+            for e in &events {
+                ensure!(
+                    needs(&m, &c.input, e.delivered, e.current) != Some(false),
+                    format!("{}/from_path/unnecessary-growth", f),
+                    "grow_to({}) while parsing record {} whose extent fits the current buffer",
+                    e.current,
+                    e.delivered
+                );
+            }
+        }
+        if c.sets && max_e + 1 < (1 << 16) {
+            // the set's buffer is a copy of the reader's buffer: it stays in the order of the default capacity
+            ensure!(
+                max_set_cap <= (1 << 17),
+                format!("{}/from_path/buffer-larger-than-default", f),
+                "all records are smaller than 64 KiB, but a record set filled by a from_path() reader has a buffer of {} bytes (file size {})",
+                max_set_cap,
+                c.input.len()
+            );
+        }
+        Ok(())
+    }
+}
+
+pub const RULE: &str = "sub-check reader-vs-recording-policy: (format, document with record extents aimed at the capacity (+-3) or soup, 1 in 7: documents with records of 100..3000 bytes and tiny records in between, capacity up to 4096, any policy kind incl. refusing and Add(k), 1 in 7: policies with steps of thousands of bytes (Add(1000..20000), DoubleUntil / DoubleUntilLimited / RefuseAbove in the thousands), chunk script, history of next / records() / read_record_set / [read_record_set_exact] / set_policy / seek to a record (also as the very first call on a fresh reader)) -> (1) every grow_to argument equals the capacity adopted last (initial capacity first) and no source read asks for more bytes than the adopted size; (2) histories without exact reads: every request is justified by the extent of the record being parsed (FASTA: extent >= capacity; FASTQ: > for four terminated lines, >= for a group running to end of input); (3) a call returns BufferLimit iff the policy refused during that call; without exact reads the strict cursor model is followed THROUGH refusals (a refused call leaves the cursor where it is, so a policy installed afterwards lets the stream continue undisturbed), with exact reads up to the first refusal; (4) a replaced policy is never asked again. Sub-check long-streams: 200..3000 small records, or 8..700 records of 200..3000 bases with tiny records mixed in and (FASTA) leading blank lines, capacity = largest extent + 1 + slack (so up to several thousand bytes): the outcome equals the model and the policy is never asked. Sub-check from-path: documents of a few bytes up to ~1 MB written to a temporary file, opened with Reader::from_path() and given a recording StdPolicy: outcome = model; no growth request if every record fits the documented 64 KiB default, otherwise the first request reports 65536 and every request is justified; record sets filled by such a reader keep a buffer of at most 2 x 64 KiB. Sub-check policy-arithmetic: StdPolicy / DoubleUntil / DoubleUntilLimited against the documented formulas for sizes around the thresholds and up to 2^40. Non-trivial = >= 1 growth request or > 20 source reads without growth (reader), every case (others). Distinct = hash(case).";
 
 pub fn run(tier: Tier) -> i32 {
     let mut run = Run::new("C09", tier, "exploration");
@@ -530,6 +687,9 @@ pub fn run(tier: Tier) -> i32 {
     let l = LongStreams;
     run.replays("long-streams", &l);
     run.generated("long-streams", &l, tier.pick(1_000, 10_000));
+    let fp = FromPath;
+    run.replays("from-path", &fp);
+    run.generated("from-path", &fp, tier.pick(4_000, 60_000));
     run.finish(
         RULE,
         &[
@@ -544,4 +704,5 @@ pub fn replay(run: &mut Run, file: &std::path::Path) -> Option<bool> {
     run.replay_file("policy-arithmetic", &Arithmetic, file, true)
         .or_else(|| run.replay_file("reader-vs-recording-policy", &Growth, file, true))
         .or_else(|| run.replay_file("long-streams", &LongStreams, file, true))
+        .or_else(|| run.replay_file("from-path", &FromPath, file, true))
 }
